@@ -1366,13 +1366,13 @@ template<class H, class ObsT> struct Multi
     created.push_back(h2->N.size());
     hs.push_back(std::move(h2));
   }
-  void assign(size_t src, size_t dst)
+  void assign(size_t src, size_t dst, int forceBase = -1)
   {
     sw(src);
     if (dst == 0) view.reset(); // a view is not told that its graph was overwritten
     H& t = *hs[dst];
     // either the container's own operator= or the one of its graph base class (GlobalGraph& = ...)
-    bool viaBase = (g_scen + src + dst) % 3 == 0;
+    bool viaBase = forceBase >= 0 ? forceBase != 0 : (g_scen + src + dst) % 3 == 0;
     std::string r = call([&]() {
       if (viaBase) static_cast<GlobalGraph&>(*t.obs->getGraph()) = *hs[src]->obs->getGraph();
       else *t.obs->getGraph() = *hs[src]->obs->getGraph();
@@ -1533,6 +1533,18 @@ static void modeCopies(size_t count, vt::Rng& rng)
       break;
     }
     m.copyCtor(0);
+    if (k % 3 == 0)
+    { // the copy caches "valid", the original becomes invalid and is assigned over the copy
+      m.sw(1);
+      m.hs[1]->qValid();
+      m.sw(0);
+      h0.createNode(); // an isolated node
+      m.created[0] = h0.N.size();
+      m.watchOthers();
+      m.assign(0, 1, static_cast<int>(rng.below(2)));
+      m.sw(1);
+      m.hs[1]->qValid();
+    }
     if (rng.coin())
     {
       m.makeView(rng);
@@ -1601,6 +1613,19 @@ static void modeDCopies(size_t count, vt::Rng& rng)
     if (rng.coin()) h0.qValid();
     if (rng.coin()) h0.qRooted();
     m.copyCtor(0);
+    if (k % 3 == 0)
+    { // the copy caches its answers, the original gets a loop and is assigned over the copy
+      m.sw(1);
+      m.hs[1]->qValid();
+      m.hs[1]->qRooted();
+      m.sw(0);
+      h0.addSon(0, 0, 0);
+      m.watchOthers();
+      m.assign(0, 1, static_cast<int>(rng.below(2)));
+      m.sw(1);
+      m.hs[1]->qValid();
+      m.hs[1]->qRooted();
+    }
     if (rng.coin())
     {
       m.makeView(rng);
